@@ -817,8 +817,13 @@ impl LeafNode {
 	) -> (usize, Option<u64>) {
 		match self.keys.binary_search_by(|k| compare.compare(k, &key)) {
 			Ok(idx) => {
-				// Key exists - update
+				// Key exists - update. The stored key is replaced as well: under a
+				// comparator that looks at only part of the key (the version index orders
+				// by user key and timestamp, not by sequence number or kind) an "equal"
+				// key can carry different bytes, and keeping the old ones would pair the
+				// new value with the old entry's kind and sequence number.
 				let old_overflow = self.get_overflow_at(idx);
+				self.keys[idx] = key;
 				self.values[idx] = value;
 				self.set_overflow_at(idx, 0);
 				(
